@@ -556,7 +556,7 @@ def run(ctx):
             fenced = any(p and ("type == 'hetatm'" in t) for t, p in facts) or \
                 any((not p) and ("type == 'atom'" in t) for t, p in facts)
             reachable_for_protein = (m2.name, q2) in reach
-            key = 'frame-dependent-site:%s.%s:%s' % (m2.name, q2, canon_of(f2).text(c))
+            key = 'frame-dependent-site:%s.%s:%s' % (m2.name, q2, canon_of(f2).key(c))
             ctx.ob('C04.R3', key, fenced or not reachable_for_protein,
                    '%s.%s picks an arbitrary perpendicular with Vector.orthogonal(), whose result '
                    'depends on the orientation of the frame; the property allows that for hetero '
